@@ -35,6 +35,9 @@ type scalarScenario struct {
 	N     int    `json:"n"`
 	Proto string `json:"proto"`
 	Secs  int64  `json:"secs"`
+	// Prev: the same *connect.Request was used for an earlier call: -1 no earlier call, 0 an earlier call without
+	// deadline, n > 0 an earlier call whose deadline was n seconds away
+	Prev int64 `json:"prev"`
 }
 
 func init() { families["scalars"] = runScalars }
@@ -221,8 +224,9 @@ func runScalars(raw json.RawMessage, seed int64, rec *Rec) {
 		h.ServeHTTP(rw, req)
 		got := rw.Result().Header.Get("Grpc-Message")
 		rec.Add(E("result", "enc", toInts([]byte(got)), "dec", toInts([]byte(refcodec.PercentDecode(got)))))
-	case "deadline_e2e":
-		// the timeout header a client sends for a context whose deadline is `secs` seconds away
+	case "deadline_e2e", "nodeadline_e2e":
+		// the timeout header a client sends for a context whose deadline is `secs` seconds away (or that has none),
+		// possibly on a *connect.Request that was used for an earlier call
 		var hdr http.Header
 		var at int64
 		fake := &fakeHTTP{}
@@ -232,34 +236,41 @@ func runScalars(raw json.RawMessage, seed int64, rec *Rec) {
 			return nil, errors.New("verif: not sent")
 		}
 		client := connect.NewClient[BV, BV](fake, "http://verif.test/verif.v1.Svc/M", clientProtoOpts(s.Proto)...)
-		ctx := &deadlineCtx{Context: context.Background(), d: time.Duration(s.Secs)*time.Second + time.Duration(s.D)}
-		_, _ = client.CallUnary(ctx, connect.NewRequest(&BV{}))
+		request := connect.NewRequest(&BV{})
+		if s.Prev == 0 {
+			_, _ = client.CallUnary(context.Background(), request)
+		} else if s.Prev > 0 {
+			_, _ = client.CallUnary(&deadlineCtx{Context: context.Background(), d: time.Duration(s.Prev) * time.Second}, request)
+		}
+		fake.wg.Wait()
+		hdr = nil
+		var asked int64
+		if s.Op == "deadline_e2e" {
+			ctx := &deadlineCtx{Context: context.Background(), d: time.Duration(s.Secs)*time.Second + time.Duration(s.D)}
+			_, _ = client.CallUnary(ctx, request)
+			asked = ctx.asked.Load()
+		} else {
+			_, _ = client.CallUnary(context.Background(), request)
+			asked = at
+		}
 		fake.wg.Wait()
 		name := "Connect-Timeout-Ms"
+		other := "Grpc-Timeout"
 		if s.Proto != "connect" {
-			name = "Grpc-Timeout"
+			name, other = other, name
 		}
 		val := ""
+		count := 0
 		if hdr != nil {
 			val = hdr.Get(name)
+			count = len(hdr.Values(name)) + len(hdr.Values(other))
 		}
 		chars := []string{}
 		for _, r := range val {
 			chars = append(chars, string(r))
 		}
-		slack := (at - ctx.asked.Load()) / 1e6 // measured bracket in ms between Deadline() and the header being final
-		rec.Add(E("result", "chars", chars, "slack_ms", slack+1, "present", val != ""))
-	case "nodeadline_e2e":
-		var hdr http.Header
-		fake := &fakeHTTP{}
-		fake.respond = func(req *http.Request) (*http.Response, error) {
-			hdr = req.Header.Clone()
-			return nil, errors.New("verif: not sent")
-		}
-		client := connect.NewClient[BV, BV](fake, "http://verif.test/verif.v1.Svc/M", clientProtoOpts(s.Proto)...)
-		_, _ = client.CallUnary(context.Background(), connect.NewRequest(&BV{}))
-		fake.wg.Wait()
-		rec.Add(E("result", "present", hdr.Get("Connect-Timeout-Ms") != "" || hdr.Get("Grpc-Timeout") != "", "chars", []string{}, "slack_ms", 0))
+		slack := (at - asked) / 1e6 // measured bracket in ms between Deadline() and the header being final
+		rec.Add(E("result", "chars", chars, "slack_ms", slack+1, "present", val != "", "count", count))
 	default:
 		panic("unknown scalar op " + s.Op)
 	}
